@@ -165,7 +165,53 @@ def main(run, args):
     s, dv = traffic_script(rng, "c05-big", "mem", 1100 if quick else 2200, big=True)
     scripts.append(s)
     delivs.append(dv)
+    # directed: late messages of several PRIOR epochs (already written to storage), read newest epoch first
+    # between two writes, then every one of them delivered again - with the state kept in memory and after a
+    # write + reload: a ciphertext is accepted once, whatever the order in which the old epochs are touched
+    prior_expect = {}
+    for i in range(6 if quick else 40):
+        storage = ["mem", "sqlite"][i % 2]
+        members = [{"name": n, "storage": storage, "retention": 5} for n in "ABC"]
+        ops = [{"op": "create", "who": "A"}, {"op": "kp", "who": "B", "id": "kB"}, {"op": "kp", "who": "C", "id": "kC"},
+               {"op": "commit", "who": "A", "id": "c0", "add": ["kB", "kC"]}, {"op": "apply", "who": "A"},
+               {"op": "join", "who": "B", "welcome_any": "c0"}, {"op": "join", "who": "C", "welcome_any": "c0"}]
+        n_ep = 3 + rng.below(2)
+        for e in range(1, n_ep + 1):
+            for x in "ab":
+                ops.append({"op": "app", "who": "B", "id": f"m{e}{x}", "data": "%02x" % e})
+            ops += [{"op": "opts", "who": "A", "path_required": True}, {"op": "commit", "who": "A", "id": f"c{e}"}, {"op": "apply", "who": "A"},
+                    {"op": "deliver", "to": "B", "msg": f"c{e}"}, {"op": "deliver", "to": "C", "msg": f"c{e}"}]
+        ops.append({"op": "save", "who": "C"})
+        eps = list(range(n_ep, 0, -1)) if i % 3 != 2 else rng.shuffle(list(range(1, n_ep + 1)))
+        oks, fails = set(), set()
+        for e in eps:
+            ops.append({"op": "deliver", "to": "C", "msg": f"m{e}a"})
+            oks.add(len(ops) - 1)
+        for e in rng.shuffle(eps):
+            ops.append({"op": "deliver", "to": "C", "msg": f"m{e}a"})
+            fails.add(len(ops) - 1)
+        ops += [{"op": "save", "who": "C"}, {"op": "load", "who": "C"}]
+        for e in rng.shuffle(eps):
+            ops.append({"op": "deliver", "to": "C", "msg": f"m{e}a"})
+            fails.add(len(ops) - 1)
+        for e in eps:
+            ops.append({"op": "deliver", "to": "C", "msg": f"m{e}b"})
+            oks.add(len(ops) - 1)
+        name = f"c05-prior-{i}"
+        prior_expect[name] = (oks, fails)
+        scripts.append({"name": name, "suite": 1, "members": members, "ops": ops})
+        delivs.append([])
     recs = run_scripts(scripts, timeout=1500)
+    for sc, rs in zip(scripts, recs):
+        if sc["name"] in prior_expect:
+            oks, fails = prior_expect[sc["name"]]
+            byi = {r["i"]: r for r in rs if "i" in r}
+            for k in sorted(fails):
+                if byi.get(k, {}).get("ok") is not False:
+                    failing.append({"what": "a message of a prior epoch that had been read is accepted a second time (the same ciphertext was accepted twice by one receiver)", "script": sc["name"], "op": sc["ops"][k], "ops": sc["ops"][max(0, k - 10):k + 1]})
+            for k in sorted(oks):
+                if byi.get(k, {}).get("ok") is not True:
+                    failing.append({"what": "a message of a retained prior epoch is refused at its first delivery", "script": sc["name"], "op": sc["ops"][k], "record": byi.get(k)})
     group_deliveries = 0
     for sc, dv, rs in zip(scripts, delivs, recs):
         if any(r.get("crash") for r in rs):
